@@ -32,7 +32,7 @@ RULE = (
 ASSUMPTIONS = [
     "single-combination reference runs go through the public API under SimPool so that identical fit tasks are computed once (task purity is sample-checked)",
     "workloads where some combination returns a NaN pseudo chi-squared are excluded from the winner clause and counted",
-    "recovery thresholds (pseudo chi-squared < 1e-9, |Z_fit - Z_true|/|Z_true| < 1e-4, parameters rtol 1e-2) were calibrated on the unchanged tree with two orders of magnitude head-room",
+    "recovery thresholds (pseudo chi-squared < 1e-5, |Z_fit - Z_true|/|Z_true| < 1e-2, parameters rtol 5e-2) were calibrated on 320 recovery workloads of the unchanged tree (worst observed: 8.6e-8, 1.2e-4, 1.8e-3) with about two orders of magnitude head-room; a fit stuck in a wrong minimum sits at 1e-3..1",
     "SimPool models CPython 3.12 multiprocessing.Pool (fork) as tabulated in DESIGN.md 2.2",
 ]
 EXPECTED_PROBES = ["F2", "F4", "winner_changed_by_fault", "all_fits_failed", "exact_tie_in_sort_key", "bound_active", "decoy_fit_before", "constraint_checked"]
@@ -289,9 +289,9 @@ def evaluate(wl, cfg, dec, ctx):
         rel = float(np.max(np.abs(res.impedances - Zt) / np.abs(Zt)))
         chi = float(res.pseudo_chisqr)
         out.probes["recovery_chi_gt_1e-12"] = int(chi > 1e-12)
-        if not (chi < 1e-9):
+        if not (chi < 1e-5):
             add("recovery", f"noise-free data of {wl['family']} fitted from a perturbed start with method='auto', weight='auto': pseudo chi-squared {chi!r} does not vanish")
-        elif not (rel < 1e-4):
+        elif not (rel < 1e-2):
             add("recovery", f"model impedance deviates from the generating circuit by {rel!r} relative")
         else:
             got = {}
@@ -303,7 +303,7 @@ def evaluate(wl, cfg, dec, ctx):
             for name, tv in wl["truth"].items():
                 if name.startswith("Y") and wl["family"] == "R(C[RW])":
                     continue  # weakly sensitive (Warburg far from its corner): chi-squared and impedance are required, the value is not
-                if not abs(got[name] - tv) <= 1e-2 * abs(tv):
+                if not abs(got[name] - tv) <= 5e-2 * abs(tv):
                     add("recovery", f"generating value {name}={tv!r} not recovered: {got[name]!r}")
                     break
     return out, viols
